@@ -96,6 +96,29 @@ Proof. destruct r; cbn; tauto. Qed.
 Lemma key_static_freeze s r : key_static r -> key_static (freeze s r).
 Proof. destruct r; cbn; auto. Qed.
 
+(* requests without an object / destination name take no lock (they are refused with 400 before
+   locks.Run, in one atomic step) and leave the store as it is *)
+Lemma nameless_multipart_atomic s b m d cp : um_name m = [] ->
+  lock_key s (RUploadMultipart b m d cp) = None /\ fst (handle s (RUploadMultipart b m d cp)) = s.
+Proof.
+  intros E. cbn [lock_key handle]. rewrite E. split; [reflexivity|]. destruct (resolve_conds s cp); reflexivity.
+Qed.
+
+Lemma nameless_compose_atomic s b dst bad srcs dm cp x : split (dst ++ s_compose) s_compose = [[]; x] ->
+  lock_key s (RCompose b dst bad srcs dm cp) = None /\ fst (handle s (RCompose b dst bad srcs dm cp)) = s.
+Proof.
+  intros E. cbn [lock_key handle]. rewrite E. split; [reflexivity|].
+  destruct (resolve_conds s cp); [|reflexivity]. destruct bad; reflexivity.
+Qed.
+
+Lemma nameless_copy_atomic s b1 n1 b2 n2 f1 rest b2' :
+  split (n1 ++ s_rewrite_b ++ b2 ++ s_o ++ n2) s_rewrite_b = [f1; rest] -> split2 rest s_o = [b2'; []] ->
+  lock_key s (RCopy b1 n1 b2 n2) = None /\ fst (handle s (RCopy b1 n1 b2 n2)) = s.
+Proof.
+  intros E1 E2. cbn [lock_key handle]. rewrite E1, E2.
+  destruct (contains (n1 ++ s_rewrite_b ++ b2 ++ s_o ++ n2) s_compose); split; reflexivity.
+Qed.
+
 (* a resumable PUT has a key exactly when its session exists and points to that object (and the
    PUT completes the upload with an acceptable declared MD5) *)
 Lemma resumable_target_some s id cr d k : resumable_target s id cr d = Some k ->
@@ -782,8 +805,9 @@ Proof.
   unfold cur_req in Hcur. rewrite Hth, Htodo, Hprog in Hcur. injection Hcur as Hr.
   rewrite Hr in *. unfold reaches_yield in Hry. apply Z.eqb_eq in Hry.
   destruct (compose_200_inv _ _ _ _ _ _ _ Hry) as [dstname [x [Hsplit [Huse Hfst]]]].
-  assert (Ek : k = (b, dstname)). { cbn [lock_key] in Hk. rewrite Hsplit in Hk. congruence. }
-  subst k. exists dstname. split; [cbn [lock_key]; rewrite Hsplit; reflexivity|]. split; [exact Huse|].
+  assert (Ek : lock_key (g_store st) (RCompose b dst bad srcs dm cp) = Some (b, dstname) /\ k = (b, dstname)).
+  { cbn [lock_key] in *. rewrite Hsplit in *. destruct dstname; [discriminate Hk|]. split; [reflexivity|congruence]. }
+  destruct Ek as [Ek0 Ek]. subst k. exists dstname. split; [exact Ek0|]. split; [exact Huse|].
   cbn [g_store]. split; [reflexivity|]. unfold cur_req. cbn [g_threads g_store].
   rewrite (nth_error_upd_same _ _ _ _ Hth). cbn [gt_todo gt_prog]. unfold capture. rewrite Hfst.
   cbn [fst snd]. rewrite find_obj_store_add_same. reflexivity.
@@ -1104,6 +1128,10 @@ Proof.
   destruct r; cbn [lock_respecting] in Hl; try contradiction;
     try (apply Hgen; [cbn [targets lock_key] in *; intros [E|[]]; apply Hk; f_equal; exact E|cbn; discriminate]);
     try (apply Hgen; [cbn; tauto|cbn; discriminate]).
+  - (* multipart: an upload without an object name is refused before the lock, nothing changes *)
+    cbn [lock_key] in Hk. destruct (um_name m) as [|c0 nm] eqn:En.
+    + cbn [handle]. destruct (resolve_conds s cp); [|reflexivity]. rewrite En. reflexivity.
+    + apply Hgen; [|cbn; discriminate]. cbn [targets]. rewrite En. intros [E|[]]. apply Hk. f_equal. exact E.
   - (* resumable PUT *)
     clear Hgen. cbn [lock_key] in Hk. unfold resumable_target in Hk. cbn [handle]. revert Hk.
     destruct (alookup id (s_uploads s)) as [u|]; [|intros _; reflexivity].
@@ -1120,17 +1148,24 @@ Proof.
     + destruct (up_md5 u) as [|[[p|p|]|[p|p|]|]]; cbn in Hk;
         try (rewrite finish_upload_other; [reflexivity|congruence]); reflexivity.
     + cbn [fst] in HF. destruct (Z.eqb (r_status rsp) 200); cbn [fst]; exact HF.
-  - (* compose *)
-    apply Hgen; [|cbn; discriminate]. cbn [targets lock_key] in *.
-    destruct (split (dst ++ s_compose) s_compose) as [|d0 [|d1 [|d2 ds]]]; cbn; try tauto.
-    intros [E|[]]. apply Hk. f_equal. exact E.
-  - (* copy *)
+  - (* compose: a destination without a name is refused before the lock, nothing changes *)
+    cbn [lock_key] in Hk.
+    destruct (split (dst ++ s_compose) s_compose) as [|d0 [|d1 [|d2 ds]]] eqn:Es;
+      try (apply Hgen; [cbn [targets]; rewrite Es; cbn; tauto|cbn; discriminate]).
+    destruct d0 as [|c0 d0'].
+    + cbn [handle]. destruct (resolve_conds s cp); [|reflexivity]. destruct bad; [reflexivity|].
+      rewrite Es. reflexivity.
+    + apply Hgen; [|cbn; discriminate]. cbn [targets]. rewrite Es. intros [E|[]]. apply Hk. f_equal. exact E.
+  - (* copy: likewise *)
     cbn [lock_key] in Hk. destruct (contains (n1 ++ s_rewrite_b ++ b2 ++ s_o ++ n2) s_compose) eqn:Ec.
     + cbn [handle]. rewrite Ec. reflexivity.
-    + apply Hgen; [|cbn; discriminate]. cbn [targets].
-      destruct (split (n1 ++ s_rewrite_b ++ b2 ++ s_o ++ n2) s_rewrite_b) as [|f1 [|rest [|x xs]]]; cbn; try tauto.
-      destruct (split2 rest s_o) as [|b2' [|f2 [|y ys]]]; cbn; try tauto.
-      intros [E|[]]. apply Hk. f_equal. exact E.
+    + destruct (split (n1 ++ s_rewrite_b ++ b2 ++ s_o ++ n2) s_rewrite_b) as [|f1 [|rest [|x xs]]] eqn:Es;
+        try (apply Hgen; [cbn [targets]; rewrite Es; cbn; tauto|cbn; discriminate]).
+      destruct (split2 rest s_o) as [|b2' [|f2 [|y ys]]] eqn:Es2;
+        try (apply Hgen; [cbn [targets]; rewrite Es, Es2; cbn; tauto|cbn; discriminate]).
+      destruct f2 as [|c0 f2'].
+      * cbn [handle]. rewrite Ec, Es, Es2. reflexivity.
+      * apply Hgen; [|cbn; discriminate]. cbn [targets]. rewrite Es, Es2. intros [E|[]]. apply Hk. f_equal. exact E.
 Qed.
 
 Lemma effect_frame s e b n : effect_respecting e -> effect_key s e <> Some (b, n) ->
@@ -1145,7 +1180,7 @@ Lemma gearly_unchanged s r : gearly s r = true -> fst (handle s r) = s.
 Proof.
   destruct r; cbn [gearly handle]; try discriminate.
   - destruct (resolve_conds s cp); [|reflexivity]. destruct n; [reflexivity|discriminate].
-  - destruct (resolve_conds s cp); [|reflexivity]. intros H. unfold finish_upload.
+  - destruct (resolve_conds s cp); [|reflexivity]. intros H. destruct (um_name m); [reflexivity|]. unfold finish_upload.
     apply orb_prop in H. destruct H as [H|H]; apply N.eqb_eq in H; rewrite H; reflexivity.
   - destruct (resolve_conds s cp); [discriminate|reflexivity].
   - destruct (resolve_conds s cp); [discriminate|reflexivity].
@@ -1225,7 +1260,7 @@ Proof.
                 | b n p cp | b prefix delim cursor maxres | b | b dst bad srcs dm cp | b1 n1 b2 n2 | b | b | b cp];
     cbn [touches_sessions] in Hn; try (exfalso; apply Hn; exact I); cbn [handle].
   - destruct (resolve_conds s cp); [|reflexivity]. destruct n; [reflexivity|]. apply finish_upload_sess.
-  - destruct (resolve_conds s cp); [|reflexivity]. apply finish_upload_sess.
+  - destruct (resolve_conds s cp); [|reflexivity]. destruct (um_name m); [reflexivity|]. apply finish_upload_sess.
   - destruct (resolve_conds s cp); reflexivity.
   - destruct (find_obj s b n); reflexivity.
   - destruct (find_obj s b n); reflexivity.
@@ -1240,11 +1275,12 @@ Proof.
     unfold store_put_obj. destruct (get_bucket s b); reflexivity.
   - destruct maxres as [ms|].
     + destruct (parse_int ms) as [z|]; [|reflexivity]. destruct (z <? 1); [reflexivity|].
-      destruct (get_bucket s b); [|reflexivity]. destruct (list_walk _ _ _ _ _) as [[f p] m]. reflexivity.
-    + destruct (get_bucket s b); [|reflexivity]. destruct (list_walk _ _ _ _ _) as [[f p] m]. reflexivity.
+      destruct (get_bucket s b); [|reflexivity]. destruct (list_walk _ _ _ _ _) as [[[f p] m] lst]. reflexivity.
+    + destruct (get_bucket s b); [|reflexivity]. destruct (list_walk _ _ _ _ _) as [[[f p] m] lst]. reflexivity.
   - reflexivity.
   - destruct (resolve_conds s cp); [|reflexivity]. destruct bad; [reflexivity|].
     destruct (split _ _) as [|d0 [|d1 [|d2 ds]]]; try reflexivity.
+    destruct d0 as [|d00 d0']; [reflexivity|]. set (d0 := d00 :: d0').
     destruct (_ >? _); [reflexivity|].
     destruct (fold_left _ srcs _) as [[code data]|]; [|reflexivity].
     destruct code; try reflexivity.
@@ -1253,6 +1289,7 @@ Proof.
   - destruct (contains _ _); [reflexivity|].
     destruct (split _ _) as [|f1 [|rest [|x xs]]]; try reflexivity.
     destruct (split2 _ _) as [|b2' [|f2 [|y ys]]]; try reflexivity.
+    destruct f2 as [|f20 f2']; [reflexivity|]. set (f2 := f20 :: f2').
     destruct (find_obj s b1 f1) as [o|]; [|reflexivity].
     destruct (find_obj _ b2' f2); cbn [fst]; apply store_add_sess.
   - cbn [fst]. apply create_bucket_sess.
@@ -1281,6 +1318,7 @@ Proof.
          pose proof (sess_part_uploads _ _ E) as E1; pose proof (sess_part_upcount _ _ E) as E2; rewrite E1; exact Hsame).
   - (* init *)
     revert Hsame. cbn [handle]. destruct (resolve_conds s cp); [|auto]. destruct bad; [auto|].
+    destruct (um_name m) as [|n0 nm] eqn:En; [auto|]. rewrite <- En.
     cbn [fst set_uploads s_uploads s_upcount]. intros _ Hl.
     destruct (beqb sid (print_int (s_upcount s + 1))) eqn:E.
     + apply beqb_eq in E. right. split; [exact E|reflexivity].
@@ -1321,7 +1359,7 @@ Proof.
     try (match goal with |- context [handle s ?r] =>
            pose proof (handle_sess_frame s r ltac:(cbn; tauto)) as E end;
          pose proof (sess_part_uploads _ _ E) as E1; pose proof (sess_part_upcount _ _ E) as E2; rewrite E2; lia).
-  - cbn [handle]. destruct (resolve_conds s cp); [|cbn; lia]. destruct bad; cbn; lia.
+  - cbn [handle]. destruct (resolve_conds s cp); [|cbn; lia]. destruct bad; [cbn; lia|]. destruct (um_name m); cbn; lia.
   - cbn [handle].
     destruct (alookup id (s_uploads s)) as [u0|]; [|cbn; lia].
     destruct crange as [cr|]; [|cbn; lia].
@@ -1347,7 +1385,7 @@ Proof.
            pose proof (handle_sess_frame s r ltac:(cbn; tauto)) as E end;
          pose proof (sess_part_uploads _ _ E) as E1; pose proof (sess_part_upcount _ _ E) as E2; rewrite E1; exact Hs).
   - cbn [handle]. destruct (resolve_conds s cp); [|exact Hs]. destruct bad; [exact Hs|].
-    cbn. apply ainsert_sorted. exact Hs.
+    destruct (um_name m); [exact Hs|]. cbn. apply ainsert_sorted. exact Hs.
   - cbn [handle].
     destruct (alookup id (s_uploads s)) as [u0|]; [|exact Hs].
     destruct crange as [cr|]; [|exact Hs].
